@@ -291,6 +291,15 @@ def run(R):
                 tt = t.astype(dt)
             vv = v if rng.random() < 0.8 else v.astype("<f8")
             wcases.append((kind, vv, tt, dt))
+    # indices that do not fit uint32 in 64-bit (or signed) index arrays: they wrap onto valid vertex numbers
+    # modulo 2^32, so the writer must refuse them (stratified, every run)
+    for nv, dt, bad in [(2, "int64", 2 ** 32 + 1), (5, "int64", -2 ** 32 + 3), (3, "uint64", 2 ** 32 + 2),
+                        (4, "int64", 2 ** 33), (3, "int32", -1), (2, "int64", -1), (6, "uint64", 2 ** 40 + 5),
+                        (3, "int16", -2)]:
+        v, t = random_mesh(rng, nv, 3)
+        tt = t.astype(dt)
+        tt[rng.randrange(3), rng.randrange(3)] = bad
+        wcases.append(("idx-outside-uint32", v, tt, dt))
     reqs = []
     for kind, v, t, dt in wcases:
         reqs.append(("mesh_write", [Atom(dt), f32bits(v).tolist(),
@@ -314,6 +323,11 @@ def run(R):
             R.disagree("save_mesh_as_precomputed vs write_mesh", case, got if got[0] != "ok" else "bytes", mod)
         if impl[0] != "ok" and written != m_partial:
             R.disagree("bytes written before the TypeError", case, written.hex()[:80], m_partial.hex()[:80])
+        if impl[0] == "ok" and t.size and (int(t.min()) < 0 or int(t.max()) >= 2 ** 32):
+            R.violation("a triangle index outside the uint32 range was written (wrapped) instead of refused",
+                        case, {"index_min": int(t.min()), "index_max": int(t.max()),
+                               "written_tail": written[-12:].hex()})
+            continue
         if impl[0] == "ok":
             # oracle: layout per the format document
             n = v.shape[0]
@@ -466,7 +480,7 @@ def run(R):
                                          vs, ts]) for vs, ts, c, M, rows, last in acases])
     for (vs, ts, c, M, rows, last), rep in zip(acases, replies):
         mat = np.array(M + ([last] if rows == 4 else []), dtype=float)
-        va = np.array(vs, dtype=rng.choice(["<f4", "<f8"]))
+        va = np.array(vs, dtype=rng.choice(["<f4", "<f8", "<i4", "<i8", "<i2"]))
         ta = np.array(ts, dtype="<u4")
 
         # the caller's arrays are snapshotted, offered read-only in one case out of three, and used for a
@@ -559,10 +573,16 @@ def run(R):
         scale = 1
         for row in Mf:
             scale *= max(abs(x) for x in row[:3]) or 1
-        va = np.array(vs, dtype="<f8")
+        # vertex arrays of integer type as well (point sets stored as integers): the result is M v + t
+        # whatever the type of the coordinates that came in
+        fa_count = R.dist.get("affine-float:cases", 0)
+        R.count("affine-float:cases")
+        vdt = ["<f8", "<i4", "<f8", "<i8", "<f4", "<i2"][fa_count % 6]
+        R.count("affine-float:vertex-dtype:" + np.dtype(vdt).name)
+        va = np.array(vs, dtype=vdt)
         ta = np.array(ts, dtype="<u4")
         impl = outcome_of(lambda: mesh.affine_transform_mesh(va, ta, mat))
-        case = {"kind": kind, "matrix": mat.tolist(), "det": float(d)}
+        case = {"kind": kind, "matrix": mat.tolist(), "det": float(d), "vertex_dtype": np.dtype(vdt).name}
         R.case(case, nontrivial=True)
         if impl[0] != "ok":
             R.violation("affine_transform_mesh failed on a float matrix", case, {"impl": impl})
@@ -632,11 +652,15 @@ def run(R):
         pre_key = rng.choice([None, None, "mesh", "other"])
         dest = new_dataset(f"ds{i}", pre_key)
         gii = os.path.join(R.tmp, f"m{i}.surf.gii")
-        pts = np.array(vs, dtype="<f4").reshape(len(vs), 3)
+        # one point set in three is stored with an integer datatype (the coordinates are whole millimetres)
+        int_points = i % 3 == 1
+        pts = np.array(vs, dtype="<i4" if int_points else "<f4").reshape(len(vs), 3)
         tri = np.array(ts, dtype="<i4").reshape(len(ts), 3)
         nib.save(GiftiImage(darrays=[
-            GiftiDataArray(pts, intent="NIFTI_INTENT_POINTSET", datatype="NIFTI_TYPE_FLOAT32"),
+            GiftiDataArray(pts, intent="NIFTI_INTENT_POINTSET",
+                           datatype="NIFTI_TYPE_INT32" if int_points else "NIFTI_TYPE_FLOAT32"),
             GiftiDataArray(tri, intent="NIFTI_INTENT_TRIANGLE", datatype="NIFTI_TYPE_INT32")]), gii)
+        R.count("mesh-cmd:pointset-" + ("int32" if int_points else "float32"))
         argv = ["mesh-to-precomputed", gii, dest]
         gz = rng.random() < 0.5
         if not gz:
